@@ -202,37 +202,42 @@ def commandBody (sub : String) (args : List String) (c : Col) : Except Err Strin
 /-- `MixCommand`: the base colour and the fraction are evaluated for every colour (inside the
 loop), then `mix(base, color, Fraction::from(1 − F))` in the named space. `args = [base,
 fraction, colorspace]`; the base may itself be `-` (one stdin line). -/
-def mixBody (args : List String) (c : Col) (stdin : List StdinLine) : Except Err String × List StdinLine :=
+def mixBody (args : List String) (cached : Option Col) (c : Col) (stdin : List StdinLine) :
+    Except Err String × List StdinLine × Option Col :=
   match args with
   | [base, fr, sp] =>
-    match colorFromArg base stdin with
-    | (.error e, stdin') => (.error e, stdin')
+    -- the base is read once (at the first colour) and reused
+    let got : Except Err Col × List StdinLine := match cached with
+      | some b => (.ok b, stdin)
+      | none => colorFromArg base stdin
+    match got with
+    | (.error e, stdin') => (.error e, stdin', none)
     | (.ok b, stdin') =>
       match numberArg fr with
-      | .error e => (.error e, stdin')
+      | .error e => (.error e, stdin', some b)
       | .ok f =>
         let space : Space := match sp.toLower with
           | "rgb" => .rgb | "hsl" => .hsl | "lch" => .lch | "oklab" => .oklab | _ => .lab
-        (.ok (showColor (mix space b c (fraction (1.0 - f)))), stdin')
-  | _ => (.ok "", stdin)
+        (.ok (showColor (mix space b c (fraction (1.0 - f)))), stdin', some b)
+  | _ => (.ok "", stdin, cached)
 
-/-- The loop for `mix` over positional colours (the body may consume stdin for a `-` base). -/
-def loopMixArgs (args : List String) : List String → List StdinLine → Outcome
+/-- The loop for `mix` over positional colours (the base may consume one stdin line, once). -/
+def loopMixArgs (args : List String) (cached : Option Col) : List String → List StdinLine → Outcome
   | [], _ => { lines := [], err := none }
   | a :: rest, stdin =>
     match colorFromArg a stdin with
     | (.error e, _) => { lines := [], err := some e }
     | (.ok c, stdin') =>
-      match mixBody args c stdin' with
-      | (.error e, _) => { lines := [], err := some e }
-      | (.ok line, stdin'') =>
-        let o := loopMixArgs args rest stdin''
+      match mixBody args cached c stdin' with
+      | (.error e, _, _) => { lines := [], err := some e }
+      | (.ok line, stdin'', cached') =>
+        let o := loopMixArgs args cached' rest stdin''
         { lines := line :: o.lines, err := o.err }
 
 /-- The whole run of a modelled subcommand: colours from the arguments if there are any,
 otherwise from stdin (which is a pipe). -/
 def run (sub : String) (args : List String) (colors : List String) (stdin : List StdinLine) : Outcome :=
-  if sub = "mix" ∧ !colors.isEmpty then loopMixArgs args colors stdin
+  if sub = "mix" ∧ !colors.isEmpty then loopMixArgs args none colors stdin
   else if colors.isEmpty then loopStdin (commandBody sub args) stdin
   else loopArgs (commandBody sub args) colors stdin
 
